@@ -51,6 +51,13 @@ func apiGet(url string) (body []byte, err error) {
 	}
 	defer resp.Body.Close()
 
+	// The api answers 200, the other status are the plain errors, whose body
+	// is the error text, never parse it as a response.
+	if resp.StatusCode != http.StatusOK {
+		err = fmt.Errorf("api status failed, url=%v, status is %v", url, resp.Status)
+		return
+	}
+
 	if body, err = ioutil.ReadAll(resp.Body); err != nil {
 		err = fmt.Errorf("api read failed, url=%v, err is %v", url, err)
 		return
